@@ -927,9 +927,21 @@ func (up4 *UP4) removeInternalApplicationIDAndGetP4rtEntry(pdr pdr) (*p4.TableEn
 		return nil, internalApp.id
 	}
 
-	up4.unsafeReleaseInternalApplicationID(appFilter)
+	// The ID stays allocated until the entry is deleted from the switch, see releaseInternalApplicationIfUnused.
 
 	return applicationsEntry, internalApp.id
+}
+
+// releaseInternalApplicationIfUnused frees the application ID of the PDR's filter once the applications
+// entry has been deleted from the switch and no PDR has started using the application in the meantime.
+func (up4 *UP4) releaseInternalApplicationIfUnused(pdr pdr) {
+	up4.applicationMu.Lock()
+	defer up4.applicationMu.Unlock()
+
+	appFilter := toUP4ApplicationFilter(pdr)
+	if internalApp, exists := up4.applicationIDs[appFilter]; exists && internalApp.usedBy.Cardinality() == 0 {
+		up4.unsafeReleaseInternalApplicationID(appFilter)
+	}
 }
 
 func (up4 *UP4) allocateAppMeterCellID() (uint32, error) {
@@ -1467,6 +1479,8 @@ func (up4 *UP4) modifyUP4ForwardingConfiguration(pdrs []pdr, allFARs []far, qers
 		// set if this PDR was not a user of its application filter before: if the write fails,
 		// the PDR (and an application allocated for it) must not stay behind as registered
 		var newApplicationUser bool
+		// set if the delete of this PDR removes the applications entry: its ID is free once that has happened
+		var applicationEntryDeleted bool
 
 		if !pdr.IsAppFilterEmpty() {
 			if methodType != p4.Update_DELETE {
@@ -1481,6 +1495,7 @@ func (up4 *UP4) modifyUP4ForwardingConfiguration(pdrs []pdr, allFARs []far, qers
 				entry, appID := up4.removeInternalApplicationIDAndGetP4rtEntry(pdr)
 				if entry != nil {
 					entriesToApply = append(entriesToApply, entry)
+					applicationEntryDeleted = true
 				}
 
 				applicationID = appID
@@ -1540,7 +1555,9 @@ func (up4 *UP4) modifyUP4ForwardingConfiguration(pdrs []pdr, allFARs []far, qers
 				// if the PDR was the only user, the applications entry may or may not have been
 				// written; make sure it is gone
 				if unused, _ := up4.removeInternalApplicationIDAndGetP4rtEntry(pdr); unused != nil {
-					_ = up4.p4client.ApplyTableEntries(p4.Update_DELETE, unused)
+					if errDel := up4.p4client.ApplyTableEntries(p4.Update_DELETE, unused); errDel == nil || isNotFoundError(errDel) {
+						up4.releaseInternalApplicationIfUnused(pdr)
+					}
 				}
 			}
 
@@ -1569,9 +1586,29 @@ func (up4 *UP4) modifyUP4ForwardingConfiguration(pdrs []pdr, allFARs []far, qers
 				return ErrOperationFailedWithReason("applying table entries to UP4", p4Error.Error())
 			}
 		}
+
+		if applicationEntryDeleted {
+			up4.releaseInternalApplicationIfUnused(pdr)
+		}
 	}
 
 	return nil
+}
+
+// isNotFoundError tells whether every failed update of a write failed because the entry does not exist.
+func isNotFoundError(err error) bool {
+	p4Error, ok := err.(*P4RuntimeError)
+	if !ok {
+		return false
+	}
+
+	for _, status := range p4Error.Get() {
+		if status.GetCanonicalCode() != int32(codes.NotFound) && status.GetCanonicalCode() != int32(codes.OK) {
+			return false
+		}
+	}
+
+	return true
 }
 
 func (up4 *UP4) sendCreate(all PacketForwardingRules, updated PacketForwardingRules) error {
